@@ -3973,7 +3973,12 @@ func convertConstantValueTo(n *node, t reflect.Type) {
 		v = reflect.ValueOf(complex(r, i))
 	}
 
-	n.rval = v.Convert(n.typ.TypeOf())
+	typ := n.typ.TypeOf()
+	if isComplex(typ) && v.IsValid() && (isInt(v.Type()) || isFloat(v.Type())) {
+		// An integer or float constant converted to a complex type has no imaginary part.
+		v = reflect.ValueOf(complex(v.Convert(reflect.TypeOf(float64(0))).Float(), 0))
+	}
+	n.rval = v.Convert(typ)
 }
 
 func isUnsignedKind(k reflect.Kind) bool {
